@@ -662,6 +662,79 @@ func (x *c19ctx) recorded(s *c19Setting, ch1, ch2 string) {
 	x.e.Run.Count("nonflag_conflicts_recorded", 1)
 }
 
+// twoFiles: channel chW gives allow-write=true, channel chD gives debug=true; both effects must show.
+func (x *c19ctx) twoFiles(chW, chD string) {
+	run := x.e.Run
+	for attempt := 1; attempt <= 2; attempt++ {
+		id := x.seq.Add(1)
+		base := filepath.Join(x.e.Scratch, "c19", fmt.Sprintf("%04d", id))
+		cwd, home, xdg, root := filepath.Join(base, "cwd"), filepath.Join(base, "home"), filepath.Join(base, "xdg"), filepath.Join(base, "root")
+		for _, d := range []string{cwd, home, xdg, root} {
+			must(os.MkdirAll(d, 0o755))
+		}
+		L := &c19Launch{base: base, root: root, files: map[string]string{}, settingN: "allow-write+debug"}
+		L.env = []string{"HOME=" + home, "XDG_CONFIG_HOME=" + xdg}
+		var global []string
+		put := func(ch, key string) {
+			content := "[server]\n" + key + " = true\n"
+			var path string
+			switch ch {
+			case c19Ini:
+				path = filepath.Join(base, "given-by-flag.ini")
+				global = append(global, "--config="+path)
+			case c19EnvFile:
+				path = filepath.Join(base, "given-by-env.ini")
+				L.env = append(L.env, "PS3NETSRV_CONFIG_FILE="+path)
+			case c19CwdIni:
+				path = filepath.Join(cwd, "config.ini")
+			case c19UserIni:
+				path = filepath.Join(xdg, "ps3netsrv-go", "config.ini")
+			}
+			must(os.MkdirAll(filepath.Dir(path), 0o755))
+			must(os.WriteFile(path, []byte(content), 0o644))
+			L.files[path] = content
+		}
+		put(chW, "allow-write")
+		put(chD, "debug")
+		L.args = append(global, "server", "--root="+root, "--listen-addr=127.0.0.1:0")
+		L.p, L.err = host.SpawnBin(x.e.Bin, L.args, host.Opt{Dir: x.e.Dir("logs"), Tag: fmt.Sprintf("c19-%04d", id), Env: L.env}, cwd, true)
+		run.Eval(1)
+		run.Count("launches", 1)
+		if L.p == nil || L.err != nil {
+			if L.p != nil {
+				L.p.Stop()
+			}
+			run.Inconclusive(fmt.Sprintf("two-files %s+%s: binary did not start: %v", chW, chD, L.err))
+			return
+		}
+		h, port := L.mainAddr()
+		if h == "" || h == "0.0.0.0" {
+			h = "127.0.0.1"
+		}
+		addr := fmt.Sprintf("%s:%d", h, port)
+		ow := x.probeAllowWrite(L, addr)
+		od := x.probeDebug(L, addr)
+		L.p.Stop()
+		if ow.inconclusive || od.inconclusive {
+			run.Inconclusive(fmt.Sprintf("two-files %s+%s: %s %s", chW, chD, ow.note, od.note))
+			return
+		}
+		if ow.state == "write:on" && od.state == "log:debug-lines" {
+			run.Sig("two files: allow-write via %s + debug via %s -> both in force", chW, chD)
+			return
+		}
+		if attempt == 2 {
+			wit := L.witness()
+			wit["observed"] = []string{ow.state, od.state}
+			what := "allow-write/" + chW
+			if ow.state == "write:on" {
+				what = "debug/" + chD
+			}
+			run.Violate("no-effect", what+"+other-file", fmt.Sprintf("allow-write=true given via %s and debug=true given via %s (two different files): observed %s and %s — a setting of one file is lost when another file is present", chW, chD, ow.state, od.state), wit)
+		}
+	}
+}
+
 // malformed: the value must stop start-up (exit status != 0, never "Listening").
 func (x *c19ctx) malformed(s *c19Setting, ch, val, label string) {
 	run := x.e.Run
@@ -844,6 +917,8 @@ func C19(e *Env) {
 		{"max-clients", "1.5", "1.5", false},
 		{"root", x.missing, "missing path", true},
 		{"root", x.file, "regular file", false},
+		{"root", filepath.Join(x.file, "sub"), "path below a regular file", true},
+		{"root", filepath.Join(filepath.Dir(x.file), strings.Repeat("n", 300)), "name longer than the file system allows", true},
 		{"read-timeout", "abc", "abc", false},
 		{"read-timeout", "10", "no unit", true},
 		{"read-timeout", "-", "dash", false},
@@ -874,7 +949,23 @@ func C19(e *Env) {
 		}
 	}
 
+	// 6. two INI files at once, each giving a *different* setting: both must take effect (no conflict,
+	// so no precedence question; a file must not hide the keys of another one)
+	fileCh := []string{c19Ini, c19EnvFile, c19CwdIni, c19UserIni}
+	nTwo := 0
+	for i, a := range fileCh {
+		for j, b := range fileCh {
+			if i == j || (!e.Thorough && (i+j)%2 == 0) {
+				continue
+			}
+			a, b := a, b
+			nTwo++
+			cases = append(cases, func() { x.twoFiles(a, b) })
+		}
+	}
+
 	ParallelDo(len(cases), 8, func(i int) { cases[i]() })
+	run.Obs("cases_two_files", nTwo)
 
 	run.Obs("cases_setting_x_channel", nSingle)
 	run.Obs("cases_flag_vs_other", nFlagVs)
